@@ -18,10 +18,10 @@ CHECK = dict(
              'distinct = distinct (base, path, operation class). exhaustive = every string over {/ . a b} up to the tier\'s length bound '
              '(quick 10, thorough 12) was evaluated for base "/base" in every operation',
         floors=dict(quick=dict(evaluations=4000000, events=50000000, distinct=300000,
-                               cov={'converse_checked_calls': 30000000, 'rejected': 3000000, 'two_path_calls': 10000000,
+                               cov={'converse_checked_calls': 30000000, 'rejected': 1500000, 'two_path_calls': 10000000,
                                     'near_limit_strings': 5000, 'seeded_strings': 50000, 'exhaustive_strings': 1398101}),
                     thorough=dict(evaluations=60000000, events=800000000, distinct=5000000,
-                                  cov={'converse_checked_calls': 500000000, 'rejected': 50000000, 'two_path_calls': 150000000,
+                                  cov={'converse_checked_calls': 500000000, 'rejected': 25000000, 'two_path_calls': 150000000,
                                        'near_limit_strings': 100000, 'seeded_strings': 1500000, 'exhaustive_strings': 22369621})),
         assumptions=['"inside the base" is judged lexically (components, ".", "..", empty) on the exact string the underlay receives; symlink '
                      'resolution by a real filesystem is outside the statement',
